@@ -296,6 +296,10 @@ def getMetaInfo(text, log=None):
             <meta http-equiv="Content-Type"
                   content="media_type;charset=encoding" />
     """
+    if isinstance(text, bytes):
+        # the markup looked for is ASCII, any 8 bit superset will do
+        text = text.decode('latin-1')
+
     p = _MetaHTMLParser()
 
     try:
